@@ -25,38 +25,47 @@ pub fn scrub() {
     std::hint::black_box(&mut a);
 }
 
-/// generic clone through a function pointer chosen at the concrete type (see `types.rs`)
+/// Everything that precedes the observed construction (source instances, instances that are overwritten) is built by
+/// these non-inlined helpers and lives on the heap: the probe's own frame never holds a key-dependent temporary whose
+/// bytes could reappear in the uninitialised part (padding, unused tail of a union arm) of the observed value.
+#[inline(never)]
+fn boxed_new<T: Ct>(key: &[u8]) -> Option<Box<T>> {
+    T::new_slice(key).ok().map(Box::new)
+}
+#[inline(never)]
+fn boxed_from_enc<T: Ct>(key: &[u8]) -> Option<Box<T>> {
+    T::from_enc_key(key, true).map(Box::new)
+}
+/// The observed construction itself: runs on a freshly scrubbed stack and writes the value straight to `dst`.
+#[inline(never)]
+fn build_into<T>(dst: *mut T, f: &mut dyn FnMut() -> Option<T>) -> bool {
+    match f() {
+        Some(v) => {
+            unsafe { core::ptr::write(dst, v) };
+            true
+        }
+        None => false,
+    }
+}
+
 pub fn probe<T: Ct>(key: &[u8], fill: u8, route: Route) -> Option<DropObs> {
     let size = core::mem::size_of::<T>();
     let layout = Layout::new::<T>();
     if size == 0 {
         return None;
     }
-    // build the value first (on the stack / wherever), then move it into the observed storage
     SCRUB_FILL.store(fill, core::sync::atomic::Ordering::Relaxed);
-    let val: T = match route {
-        Route::New => {
-            scrub();
-            T::new_slice(key).ok()?
-        }
-        Route::Clone => {
-            let orig = T::new_slice(key).ok()?;
-            scrub();
-            T::clone_self(&orig)?
-        }
-        // from_enc_key scrubs between building the Enc instance and converting it
-        Route::FromRef => T::from_enc_key(key, true)?,
-        Route::FromVal => T::from_enc_key(key, false)?,
-        // an instance keyed differently is overwritten by clone_from: neither the old nor the new key may survive the drop
+    let other_key: Vec<u8> = key.iter().map(|b| b ^ 0x5A).collect();
+    // sources / targets, on the heap
+    let mut src: Option<Box<T>> = None;
+    let mut target: Option<Box<T>> = None;
+    match route {
+        Route::New | Route::FromRef | Route::FromVal => {}
+        Route::Clone => src = Some(boxed_new::<T>(key)?),
+        Route::CloneOfFrom => src = Some(boxed_from_enc::<T>(key)?),
         Route::CloneFrom => {
-            let orig = T::new_slice(key).ok()?;
-            let other_key: Vec<u8> = key.iter().map(|b| b ^ 0x5A).collect();
-            let mut other = T::new_slice(&other_key).ok()?;
-            scrub();
-            if !other.c_clone_from(&orig) {
-                return None;
-            }
-            other
+            src = Some(boxed_new::<T>(key)?);
+            target = Some(boxed_new::<T>(&other_key)?);
         }
         // hook builds: the overwritten instance and the source live in different union arms (the target was built while
         // detection answered the other way); afterwards the hook is put back to what the run uses
@@ -67,31 +76,55 @@ pub fn probe<T: Ct>(key: &[u8], fill: u8, route: Route) -> Option<DropObs> {
             let target_soft = route == Route::CloneFromOntoSoft;
             let restore = FORCE_OFF_RUN.load(core::sync::atomic::Ordering::Relaxed);
             crate::drivers::special::set_force_off(!target_soft);
-            let orig = T::new_slice(key).ok();
+            let a = boxed_new::<T>(key);
             crate::drivers::special::set_force_off(target_soft);
-            let other_key: Vec<u8> = key.iter().map(|b| b ^ 0x5A).collect();
-            let other = T::new_slice(&other_key).ok();
+            let b = boxed_new::<T>(&other_key);
             crate::drivers::special::set_force_off(restore);
-            let (orig, mut other) = (orig?, other?);
-            scrub();
-            if !other.c_clone_from(&orig) {
-                return None;
-            }
-            other
+            src = Some(a?);
+            target = Some(b?);
         }
-        Route::CloneOfFrom => {
-            let orig = T::from_enc_key(key, true)?;
-            scrub();
-            T::clone_self(&orig)?
-        }
-    };
+    }
     unsafe {
         let p = alloc(layout);
         if p.is_null() {
             return None;
         }
         core::ptr::write_bytes(p, fill, size);
-        core::ptr::write(p as *mut T, val);
+        let ok = match route {
+            // clone_from: the overwritten instance is moved into the observed storage first (a plain byte copy of a
+            // heap value), then overwritten in place
+            Route::CloneFrom | Route::CloneFromOntoSoft | Route::CloneFromOntoHw => {
+                let t = target.take().unwrap();
+                core::ptr::copy_nonoverlapping(&*t as *const T as *const u8, p, size);
+                // the box's memory is released without running T's destructor (the value now lives at p)
+                let raw = Box::into_raw(t);
+                dealloc(raw as *mut u8, layout);
+                scrub();
+                (*(p as *mut T)).c_clone_from(src.as_ref().unwrap())
+            }
+            _ => {
+                scrub();
+                let mut f = || -> Option<T> {
+                    match route {
+                        Route::New => T::new_slice(key).ok(),
+                        Route::Clone | Route::CloneOfFrom => T::clone_self(src.as_ref().unwrap()),
+                        // from_enc_key scrubs between building the Enc instance and converting it
+                        Route::FromRef => T::from_enc_key(key, true),
+                        Route::FromVal => T::from_enc_key(key, false),
+                        _ => None,
+                    }
+                };
+                build_into(p as *mut T, &mut f)
+            }
+        };
+        if !ok {
+            // nothing (or, for a refused clone_from, an untouched target) lives at p: release without observing
+            if matches!(route, Route::CloneFrom | Route::CloneFromOntoSoft | Route::CloneFromOntoHw) {
+                core::ptr::drop_in_place(p as *mut T);
+            }
+            dealloc(p, layout);
+            return None;
+        }
         let before = core::slice::from_raw_parts(p, size).to_vec();
         core::ptr::drop_in_place(p as *mut T);
         let after = core::slice::from_raw_parts(p, size).to_vec();
